@@ -339,7 +339,7 @@ func (rg *rig) exec(caseID string, steps []tstep, only int) ([]tobs, string) {
 		o.Ran = true
 		o.T = time.Now().UnixNano()
 		o.TS = uint64(o.T / 1e9)
-		if uint64(utils.Timestamp()) != o.TS {
+		if !coldstartPhase && uint64(utils.Timestamp()) != o.TS {
 			clockErr = fmt.Sprintf("step %d: utils.Timestamp=%d, virtual clock=%d", i, utils.Timestamp(), o.TS)
 		}
 		o.Seq = rg.tick()
